@@ -59,6 +59,12 @@ type C12Case struct {
 	Outline bool         `json:"outline,omitempty"` // announce v2 tips by outline only (else header + outline)
 	// Excluded names a known finding whose shape the generator removed.
 	Excluded string `json:"excluded,omitempty"`
+	// V1Converges: the branches of the case differ by more than one block, so
+	// whatever a node relays after a sync (a header whose parent the receiver
+	// does not know) flips the receiver back to unsynced; convergence and the
+	// stall window are then asserted for v1 tips as well (the "v1 tips cannot be
+	// announced" rule only concerns a tip exactly one block ahead).
+	V1Converges bool `json:"v1_converges,omitempty"`
 }
 
 var sendBlocksFixed = knownFixed("F-C12-1")
@@ -466,7 +472,7 @@ func runC12(c C12Case, cs *kit.CaseStats) error {
 		}
 		// stall oracle: all edges up, an announceable dominating tip exists, some
 		// node is sufficiently lighter than it, and nothing at all has moved
-		if dom != nil && dom.Block.V2 != nil {
+		if dom != nil && (dom.Block.V2 != nil || c.V1Converges) {
 			lighter := false
 			key := ""
 			for _, n := range nodes {
@@ -504,7 +510,7 @@ func runC12(c C12Case, cs *kit.CaseStats) error {
 			for _, a := range nodes {
 				for _, b := range nodes {
 					ta, tb := tr.ByID[a.sn.Node.CM.Tip().ID], tr.ByID[b.sn.Node.CM.Tip().ID]
-					if ta == nil || tb == nil || ta.Ledger == nil || tb.Ledger == nil || (tb.Block.V2 != nil && tb.Ledger.State.SufficientlyHeavierThan(ta.Ledger.State)) {
+					if ta == nil || tb == nil || ta.Ledger == nil || tb.Ledger == nil || ((tb.Block.V2 != nil || c.V1Converges) && tb.Ledger.State.SufficientlyHeavierThan(ta.Ledger.State)) {
 						lighterPair = true
 					}
 				}
@@ -579,7 +585,7 @@ func runC12(c C12Case, cs *kit.CaseStats) error {
 	}
 	cs.Add("reconnects", int64(reconnects))
 	cs.Add("elapsed_ms", elapsed.Milliseconds())
-	if dom != nil && dom.Block.V2 != nil {
+	if dom != nil && (dom.Block.V2 != nil || c.V1Converges) {
 		stall.class(cs)
 		if os.Getenv("VERIF_NET_DEBUG") != "" {
 			fmt.Printf("GAP %d\n", stall.maxGap.Milliseconds())
@@ -616,7 +622,7 @@ func runC12(c C12Case, cs *kit.CaseStats) error {
 	// half is asserted where the heavier tip is a v2 block.
 	if dom != nil {
 		cs.Class("one-branch-dominates")
-		if dom.Block.V2 == nil {
+		if dom.Block.V2 == nil && !c.V1Converges {
 			cs.Class("dominating-tip-is-v1(not-announceable)")
 		} else {
 			for i := range nodes {
@@ -631,7 +637,7 @@ func runC12(c C12Case, cs *kit.CaseStats) error {
 	}
 	for i := range nodes {
 		for j := range nodes {
-			if finals[j].Block.V2 != nil && finals[j].Ledger.State.SufficientlyHeavierThan(finals[i].Ledger.State) {
+			if (finals[j].Block.V2 != nil || c.V1Converges) && finals[j].Ledger.State.SufficientlyHeavierThan(finals[i].Ledger.State) {
 				return fmt.Errorf("quiescent after %v, yet node %d's tip %v is sufficiently lighter than node %d's tip %v (all tips: %v)", elapsed.Round(time.Millisecond), i, finals[i].Index(), j, finals[j].Index(), tipNames(finals))
 			}
 		}
